@@ -4,7 +4,7 @@ Component level (adversarial feeds): `install(world)`; messages are appended to 
 immediately / with a delay by `World`.  `Poller.poll` never blocks: it returns the registered sockets that have a queued
 message, in the order that makes `socks.pop()` visit them according to `world.prio` (a list of sockets / None = registration
 order reversed, i.e. pop visits in registration order)."""
-import heapq, itertools
+import atexit, heapq, itertools, os
 
 PULL, PUB, PUSH, SUB = 'PULL', 'PUB', 'PUSH', 'SUB'
 POLLIN = 1
@@ -22,6 +22,7 @@ class World:
         self.rng = rng; self.now = 0; self.binds = {}; self.all_socks = []; self.inflight = []; self.seq = itertools.count()
         self.max_delay = int(max_delay_ms * 1_000_000); self.loss = loss; self.push_hwm = push_hwm
         self.prio = None; self.sent = 0; self.dropped = 0; self.on_post = None; self.dead_drop = True
+        self.ipc_files = set()    # socket files of ipc:// endpoints: libzmq creates them at bind and unlinks them at close - a killed process leaves them behind
         self.sub_connect = 0      # slow joiner: a SUB connection carries publishes only from (connect time + up to this many ns) on; PUSH connections are up at once
 
     def time_ns(self): return self.now
@@ -56,6 +57,11 @@ class FakeSocket(Socket):
     def bind(self, addr):
         if addr in WORLD.binds and not WORLD.binds[addr].closed: raise ZMQError(f'Address already in use: {addr}')
         WORLD.binds[addr] = self; self.addr = addr
+        if addr.startswith('ipc://') and addr[6:]:
+            # libzmq's ipc transport: bind() unlinks a stale socket file of that name (left by a killed process) and creates its own
+            try:
+                open(addr[6:], 'w').close(); self.ipc_file = addr[6:]; WORLD.ipc_files.add(addr[6:])
+            except OSError: pass
 
     def connect(self, addr):
         self.addr = addr
@@ -84,6 +90,14 @@ class FakeSocket(Socket):
     def recv_multipart(self): return self.queue.pop(0)
 
     def close(self):
+        self.crash()
+        f = getattr(self, 'ipc_file', None)
+        if f:
+            try: os.unlink(f)
+            except OSError: pass
+
+    def crash(self):
+        """the owning process is killed: the socket is gone, nothing is cleaned up (an ipc:// socket file stays on disk)"""
         self.closed = True
         if WORLD.binds.get(self.addr) is self: del WORLD.binds[self.addr]
 
@@ -110,11 +124,36 @@ class Poller:
         return [(s, POLLIN) for s in reversed(visit)]      # socks.pop() takes from the end
 
 
+def cleanup():
+    """remove the socket files the current world left on disk (between trials and at exit)"""
+    if WORLD is not None:
+        for f in list(WORLD.ipc_files):
+            try: os.unlink(f)
+            except OSError: pass
+        WORLD.ipc_files.clear()
+
+
+atexit.register(cleanup)
+
+
 def install(world):
     """Point openfilter.filter_runtime.zeromq at this fake.  Returns the zeromq module."""
     import sys
     global WORLD
+    cleanup()
     WORLD = world
     from openfilter.filter_runtime import zeromq as Z
     Z.zmq = sys.modules[__name__]; Z.time_ns = world.time_ns; Z.sleep = lambda s: None; Z.ZMQContext.context = (None, 0)
     return Z
+
+
+def quiet_metrics(M):
+    """mq.Metrics without its sampling threads (psutil / GPU): same interface, the constant readings of mq.DummyMetrics"""
+    real = getattr(M, '_RealMetrics', None) or M.Metrics
+
+    class QuietMetrics(real):
+        def __init__(self): self.d = M.DummyMetrics()
+        def destroy(self): pass
+        def incoming(self, frames=None): pass
+        def outgoing(self, frames=None): return self.d.outgoing(frames)
+    M._RealMetrics = real; M.Metrics = QuietMetrics
